@@ -161,8 +161,9 @@ static void on_fatal(const char *kind, const char *detail) {
 	else printf("FAIL key=sched:%s:mtdec:%s %s threads: %s schedule=[%s] early=%d reinit=%d trace: %s replay={\"harness\":\"c07_mtdec\",\"row\":\"%s\",\"early\":%d,\"reinit\":%d,\"schedule\":\"%s\"} ;;END\n", k, FN[R->file], kind, detail, sch, cur_early, cur_reinit, tr, rowname, cur_early, cur_reinit, sch);
 	printf("INCOMPLETE exploration of this shard ended by a fatal event (%s)\nDONE\n", kind); fflush(stdout);
 }
-static void check_one(void) {
-	n_exec++;
+static int quiet_check;
+static int check_one(void) {
+	if (!quiet_check) n_exec++;
 	uint64_t k = h_fnv(&last.r, sizeof last.r, 0); k = h_fnv(&last.tout, sizeof last.tout, k); k = h_fnv(&last.h, 8, k); h_set_add(&obsset, k);
 	int bad = 0; const char *why = "";
 	if (last.r == 77) { /* freed early: only safety (ASan), termination and balance are checked */ }
@@ -176,11 +177,18 @@ static void check_one(void) {
 	else if (last.tout != st_obs.tout || last.h != st_obs.h) { bad = 1; why = "output"; }
 	if (last.probe_bad) { bad = 1; why = "progress-probe"; }
 	if (last.leaked) { bad = 1; why = "allocator-balance"; }
+	if (bad && quiet_check) return 1;
 	if (bad) { n_bad++; char sch[1200]; vs_schedule_string(sch, sizeof sch); char key[120]; snprintf(key, sizeof key, "mtdec:%s:%s", FN[R->file], why);
 		h_fail(key, "%s: mt(ret=%d out=%zu in=%zu calls=%d leaked=%ld) vs single-threaded(ret=%d out=%zu) row=%s early=%d reinit=%d schedule=[%s] replay={\"harness\":\"c07_mtdec\",\"row\":\"%s\",\"early\":%d,\"reinit\":%d,\"schedule\":\"%s\"}",
 			why, last.r, last.tout, last.tin, last.calls, last.leaked, st_obs.r, st_obs.tout, rowname, cur_early, cur_reinit, sch, rowname, cur_early, cur_reinit, sch); }
+	return bad;
 }
-static void body_checked(void) { H_CASE("c07_mtdec row=%s early=%d reinit=%d", rowname, cur_early, cur_reinit); body(); check_one(); }
+// Replay before report: a mismatch is re-executed under exactly the same schedule; only if the observation repeats is it reported.
+static void body_checked(void) { H_CASE("c07_mtdec row=%s early=%d reinit=%d", rowname, cur_early, cur_reinit); body();
+	quiet_check = 1; int bad = check_one(); quiet_check = 0;
+	if (bad) { obs a = last; int n = vs_npts; memcpy(vs_prefix, vs_choice, n * sizeof(int)); memcpy(vs_prefix_nen, vs_nen, n * sizeof(int)); vs_prefix_len = n; vs_begin(); body(); vs_end(); obs b = last;
+		if (a.r != b.r || a.tout != b.tout || a.h != b.h || a.leaked != b.leaked) { char sch[1200]; vs_schedule_string(sch, sizeof sch); printf("NONDET row=%s schedule=[%s]: the same schedule gave (ret=%d,out=%zu) then (ret=%d,out=%zu)\n", rowname, sch, a.r, a.tout, b.r, b.tout); return; } }
+	check_one(); }
 
 static void row_name(const row *r, int idx) {
 	snprintf(rowname, sizeof rowname, "%d:%s,thr=%d,in=%d,out=%d,to=%d,fl=%#x,mlt=%s,mls=%s%s%s%s", idx, FN[r->file], r->threads, r->inchunk, r->outchunk, r->timeout, r->flags,
@@ -214,12 +222,15 @@ int main(int argc, char **argv) {
 	vs_bounds b = { R->bp + ((thorough && R->threads <= 2 && !R->early && !R->reinit && R->file != F_BIGBLK) ? 1 : 0), R->bt, R->bs };
 	if (argc > 8) { b.preemptions = atoi(argv[6]); b.timeouts = atoi(argv[7]); b.spurious = atoi(argv[8]); }
 	vs_allow_spurious = b.spurious > 0;
+	if (getenv("VS_MAX_EXEC")) { vs_max_exec = atol(getenv("VS_MAX_EXEC")); vs_dump_path = getenv("VS_DUMP"); vs_resume_path = getenv("VS_RESUME"); }
+	int k_from = getenv("VS_K") ? atoi(getenv("VS_K")) : -1;
 	vs_stats tot = { 0 }; int kmax = 0; int kcap = thorough ? 12 : 6;
 	if (R->early || R->reinit) {	// learn the number of calls of the default schedule, then sweep k
 		cur_early = cur_reinit = 0; vs_prefix_len = 0; vs_begin(); body(); vs_end(); kmax = last.calls > kcap ? kcap : last.calls; }
-	for (int k = (kmax ? 1 : 0); k <= kmax; k++) {
+	for (int k = (kmax ? 1 : 0); k <= kmax; k++) { if (k_from >= 0 && k < k_from) continue;
 		cur_early = R->early ? k : 0; cur_reinit = R->reinit ? k : 0;
 		vs_stats st; vs_explore(body_checked, &b, shard, nsh, &st, h_expired);
+		if (vs_dumped) { printf("CONTINUE k=%d\n", k); tot.executions += st.executions; tot.transitions += st.transitions; tot.points += st.points; if (st.max_points > tot.max_points) tot.max_points = st.max_points; break; }
 		tot.executions += st.executions; tot.transitions += st.transitions; tot.points += st.points; if (st.max_points > tot.max_points) tot.max_points = st.max_points; tot.switches += st.switches; tot.with_timeouts += st.with_timeouts; tot.incomplete |= st.incomplete;
 	}
 	printf("STAT evals=%ld states=%ld transitions=%ld distinct=%ld sched_points=%ld switches=%ld with_timeouts=%ld rows=1\n", tot.executions, tot.executions, tot.transitions + tot.executions, (long)obsset.n, tot.points, tot.switches, tot.with_timeouts);
